@@ -154,7 +154,15 @@ VARIANTS = [
       lambda nd: stmt("self._configs.append(config)") + [nd] + stmt("self._configs.pop()"),
       note="a warm-up epoch rejected after POSTERIOR has already been scheduled",
       expect_rule="C07.R9"),
+    V("c07_results_sort_kernels", "M", E, "Engine.get_results",
+      *replace_stmt("kernels = self._kernel_sequence.get_kernels()",
+                    "kernels = self._kernel_sequence.get_kernels()\nkernels.sort(key=lambda k: k.identifier)"),
+      note="the live kernel list is reordered while the state slots stay", expect_rule="C07.R1"),
     # ---- twins
+    V("c07_t_results_sorted_copy", "T", E, "Engine.get_results",
+      *replace_stmt("kernels = self._kernel_sequence.get_kernels()",
+                    "kernels = sorted(self._kernel_sequence.get_kernels(), key=lambda k: k.identifier)"),
+      note="a sorted COPY for the result maps"),
     V("c07_t_seq_tune_comp", "T", Q, "KernelSequence.start_epoch",
       lambda nd: isinstance(nd, ast.Assign) and ast.unparse(nd.targets[0]) == "states",
       lambda nd: stmt("states = []\nfor i, kernel in enumerate(self._kernels):\n"
